@@ -1,13 +1,193 @@
 (* C04 — Only repository indexes signed by a trusted key are used.
-   Property theorems only; proofs are in Proofs/IndexProofs.v. *)
+   Property theorems only; proofs are in Proofs/IndexProofs.v.
+
+   The statements are about Model/Index.v (parseRepositoryIndex as it is after
+   fix c87da01: with checking on, only the verified bytes are parsed). An
+   archive is any list of gzip members, each any list of tar entries followed by
+   an optional entry-less meta-header and zero blocks; key sets, signature
+   entries, options are arbitrary. [raw], [hash], [verify] and the APKINDEX text
+   parser are universally quantified: nothing is assumed about them, so the
+   theorems speak about the verify oracle's answer on the digest of exactly the
+   remaining raw bytes (no collision-resistance claim is made or needed). The
+   signature-name regular expression, the signature-type switch, the file names
+   and the IndexURL format are the ones goextract read from the source on this
+   run (Generated.Regexes, Generated.IndexConsts). *)
 From Apko Require Import Base.Prelude Base.Regex Generated.Regexes Generated.IndexConsts
   Model.Index Spec.IndexSpec Proofs.IndexProofs.
 Open Scope string_scope. Open Scope list_scope.
 
-(* the boolean validator run on the implementation's observed results decides
-   exactly the readable statement *)
+(* With checking on, an accepted archive carries, in its first member, an entry
+   named .SIGN.<RSA|RSA256>.<key> for a configured key whose body verifies under
+   that key over the digest (SHA-1 / SHA-256 by type) of the raw bytes after the
+   first member. *)
+Theorem c04_accept_sound : forall B D raw hash verify parse_text keys a idx,
+  parse_repository_index B D raw hash verify parse_text true keys a = POk idx ->
+  exists m1 rest, a = m1 :: rest /\ Authentic B D raw hash verify keys m1 rest.
+Proof.
+  intros B D raw hash verify pt keys a idx H.
+  destruct (accept_sound B D raw hash verify pt keys a idx H) as (m1 & rest & E & A & _). eauto.
+Qed.
+Print Assumptions c04_accept_sound.
+
+(* ... and the index handed on is the parse of exactly those remaining members:
+   whatever the (unsigned) first member contains or leaves behind — entries,
+   a pending PAX/GNU meta-header, zero blocks — contributes nothing. Full
+   strength since fix c87da01 (before it the parse pass re-read the first member
+   and this held only when it left nothing behind). *)
+Theorem c04_parsed_is_signed : forall B D raw hash verify parse_text keys a idx,
+  parse_repository_index B D raw hash verify parse_text true keys a = POk idx ->
+  exists m1 rest, a = m1 :: rest /\ index_from_archive parse_text rest = POk idx.
+Proof.
+  intros B D raw hash verify pt keys a idx H.
+  destruct (accept_sound B D raw hash verify pt keys a idx H) as (m1 & rest & E & _ & I). eauto.
+Qed.
+Print Assumptions c04_parsed_is_signed.
+
+(* the model meets the readable statement the validator decides *)
+Theorem c04_holds : forall B D raw hash verify parse_text keys a idx,
+  parse_repository_index B D raw hash verify parse_text true keys a = POk idx ->
+  Holds B D raw hash verify parse_text keys a (Some (i_pkgs idx)).
+Proof. exact model_holds. Qed.
+Print Assumptions c04_holds.
+
+(* rejections: anything not authentic in the sense above is an error ... *)
+Theorem c04_reject_not_authentic : forall B D raw hash verify parse_text keys m1 rest,
+  ~ Authentic B D raw hash verify keys m1 rest ->
+  parse_repository_index B D raw hash verify parse_text true keys (m1 :: rest) = PErr.
+Proof. exact reject_not_authentic. Qed.
+Print Assumptions c04_reject_not_authentic.
+
+(* ... in particular an archive whose first member has no signature-named entry, *)
+Theorem c04_reject_unsigned : forall B D raw hash verify parse_text keys m1 rest,
+  (forall e alg key, In e (m_entries m1) -> e_name e <> sig_entry_name alg key) ->
+  parse_repository_index B D raw hash verify parse_text true keys (m1 :: rest) = PErr.
+Proof. exact reject_unsigned. Qed.
+Print Assumptions c04_reject_unsigned.
+
+(* one signed only by keys that are not configured, *)
+Theorem c04_reject_unknown_key : forall B D raw hash verify parse_text keys m1 rest,
+  (forall e alg key, In e (m_entries m1) -> e_name e = sig_entry_name alg key -> ~ In key keys) ->
+  parse_repository_index B D raw hash verify parse_text true keys (m1 :: rest) = PErr.
+Proof. exact reject_unknown_keys. Qed.
+Print Assumptions c04_reject_unknown_key.
+
+(* one none of whose entries verifies for a configured key over the remaining
+   bytes (altered content, altered signature, signature over other content), *)
+Theorem c04_reject_unverified : forall B D raw hash verify parse_text keys m1 rest,
+  (forall e key a, In e (m_entries m1) -> In key keys -> verify key a (hash a (raw rest)) (e_body e) = false) ->
+  parse_repository_index B D raw hash verify parse_text true keys (m1 :: rest) = PErr.
+Proof. exact reject_unverified. Qed.
+Print Assumptions c04_reject_unverified.
+
+(* and everything when no key is configured or there is no gzip member *)
+Theorem c04_reject_no_keys : forall B D raw hash verify parse_text a,
+  parse_repository_index B D raw hash verify parse_text true [] a = PErr.
+Proof. exact reject_no_keys. Qed.
+Print Assumptions c04_reject_no_keys.
+
+Theorem c04_reject_empty_archive : forall B D raw hash verify parse_text keys,
+  parse_repository_index B D raw hash verify parse_text true keys [] = PErr.
+Proof. exact reject_empty_archive. Qed.
+Print Assumptions c04_reject_empty_archive.
+
+(* the only names the signature pass tolerates are the ones the generated
+   regular expression matches; they all start with the prefix under which the
+   index reader files an entry as a signature, and are never the names it takes
+   packages or the description from (proved through Base/Regex.v's verified
+   matcher on the regular expression read from index.go) *)
+Theorem c04_tolerated_names_are_signatures : forall keys es sigs e,
+  sig_pass keys es = Ok sigs -> In e es ->
+  full_match signature_file_regex (e_name e) = true /\
+  has_prefix sign_prefix (e_name e) = true /\
+  e_name e <> apk_index_filename /\ e_name e <> description_filename.
+Proof.
+  intros keys es sigs e H He. pose proof (sig_pass_names keys es sigs H e He) as F.
+  split; [exact F | apply tolerated_names_disjoint; exact F].
+Qed.
+Print Assumptions c04_tolerated_names_are_signatures.
+
+(* opt-outs: checking is skipped exactly when signatures are ignored or the
+   index URL is IndexURL(repo, arch) of a listed repository; without checking
+   the archive is simply parsed *)
+Theorem c04_optout_exact : forall ign listed index arch,
+  should_check ign listed index arch = true <-> CheckRequired ign listed index arch.
+Proof. exact should_check_iff. Qed.
+Print Assumptions c04_optout_exact.
+
+Theorem c04_index_url_pinned :
+  index_url_args = ["repo"; "arch"; "indexFilename"] /\
+  forall repo arch, index_url repo arch = (repo ++ "/" ++ arch ++ "/APKINDEX.tar.gz")%string.
+Proof. split; [reflexivity | exact index_url_spec]. Qed.
+Print Assumptions c04_index_url_pinned.
+
+(* inside the stated envelope the tar walk of the model never answers
+   "not modelled", so no theorem above holds for that reason *)
+Theorem c04_envelope : forall parse_text a,
+  toks_modelled None (toks_of a) = true -> index_from_archive parse_text a <> PUnmodelled.
+Proof. intros pt a H. apply read_toks_modelled; exact H. Qed.
+Print Assumptions c04_envelope.
+
+(* the boolean validators run on the implementation's observed results decide
+   exactly the readable statements *)
 Theorem c04_validator_decides : forall B D raw hash verify parse_text keys a o,
   holds_tags B D raw hash verify parse_text keys a o = [] <->
   Holds B D raw hash verify parse_text keys a o.
 Proof. exact holds_tags_iff. Qed.
 Print Assumptions c04_validator_decides.
+
+Theorem c04_optout_validator_decides : forall ign listed index arch,
+  check_required_b ign listed index arch = true <-> CheckRequired ign listed index arch.
+Proof. exact check_required_b_iff. Qed.
+Print Assumptions c04_optout_validator_decides.
+
+(* ---- non-vacuity --------------------------------------------------------------- *)
+Definition ex_key := "k.rsa.pub".
+Definition ex_sig : list N := [1; 2; 3]%N.
+Definition ex_text : list N := [80; 58; 97]%N.
+Definition ex_verify (key : string) (a : halg) (d : list member) (sig : list N) : bool :=
+  String.eqb key ex_key && halg_eqb a SHA256 && list_eqb N.eqb sig ex_sig.
+Definition ex_parse (b : list N) : option (list string) :=
+  if list_eqb N.eqb b ex_text then Some ["a=1"; "b=2"] else if list_eqb N.eqb b (firstn 2 ex_text) then Some ["a=1"] else None.
+Definition ex_rest : list member :=
+  [ {| m_entries := [ {| e_name := "APKINDEX"; e_body := ex_text |} ]; m_pending := None; m_tail := TEOA |} ].
+Definition ex_first (p : option meta) (t : tail) : member :=
+  {| m_entries := [ {| e_name := ".SIGN.RSA256.k.rsa.pub"; e_body := ex_sig |} ]; m_pending := p; m_tail := t |}.
+
+(* a validly signed archive is accepted with the signed package list *)
+Example c04_accepts_signed :
+  exists idx, parse_repository_index (list member) (list member) (fun r => r) (fun _ r => r) ex_verify ex_parse
+                true [ex_key] (ex_first None TClean :: ex_rest) = POk idx /\ i_pkgs idx = ["a=1"; "b=2"].
+Proof. eexists. split; vm_compute; reflexivity. Qed.
+
+(* the fixed defect C04-F1 (regression witness): with a size record left pending
+   by the signature member, parsing the WHOLE archive — what the code did before
+   c87da01 — yields a package list that is not the signed one, while the fixed
+   model hands on exactly the signed list *)
+Example c04_whole_archive_parse_differs :
+  let pend := Some {| mt_rename := None; mt_resize := Some 2%N |} in
+  exists i_whole i_signed,
+    index_from_archive ex_parse (ex_first pend TClean :: ex_rest) = POk i_whole /\
+    index_from_archive ex_parse ex_rest = POk i_signed /\
+    i_pkgs i_whole <> i_pkgs i_signed /\
+    parse_repository_index (list member) (list member) (fun r => r) (fun _ r => r) ex_verify ex_parse
+      true [ex_key] (ex_first pend TClean :: ex_rest) = POk i_signed.
+Proof. eexists _, _. repeat split; try (vm_compute; reflexivity). vm_compute. discriminate. Qed.
+
+(* C04-F2: an end-of-archive marker in the signature member used to end the
+   walk before the signed bytes *)
+Example c04_whole_archive_parse_stops_early :
+  exists i_whole i_signed,
+    index_from_archive ex_parse (ex_first None TEOA :: ex_rest) = POk i_whole /\ i_pkgs i_whole = [] /\
+    parse_repository_index (list member) (list member) (fun r => r) (fun _ r => r) ex_verify ex_parse
+      true [ex_key] (ex_first None TEOA :: ex_rest) = POk i_signed /\ i_pkgs i_signed = ["a=1"; "b=2"].
+Proof. eexists _, _. repeat split; vm_compute; reflexivity. Qed.
+
+(* hypotheses of the rejection theorems are satisfiable *)
+Example c04_rejects_unknown_key :
+  parse_repository_index (list member) (list member) (fun r => r) (fun _ r => r) ex_verify ex_parse
+    true ["other.rsa.pub"] (ex_first None TClean :: ex_rest) = PErr.
+Proof. vm_compute. reflexivity. Qed.
+Example c04_optout_example :
+  should_check false ["https://r/os"] "https://r/os/x86_64/APKINDEX.tar.gz" "x86_64" = false /\
+  should_check false ["https://r/os/"] "https://r/os/x86_64/APKINDEX.tar.gz" "x86_64" = true.
+Proof. split; vm_compute; reflexivity. Qed.
